@@ -3,7 +3,8 @@
 From Coq Require Import ZArith QArith List Bool String Ascii.
 From Coq Require Import Floats.PrimFloat.
 From PAFCommon Require Import PyFloat PyNum.
-From PAFC07 Require Import Gen Model Proofs1 Proofs2 Proofs3 Proofs4 Proofs5 Proofs6 Refute.
+From Coq Require Import Permutation.
+From PAFC07 Require Import Gen Model Proofs1 Proofs2 Proofs3 Proofs4 Proofs5 Proofs6 Proofs7 Refute.
 Import ListNotations.
 Open Scope string_scope.
 Open Scope list_scope.
@@ -53,7 +54,7 @@ Proof. eexists. split; [vm_compute; reflexivity|]. split; [discriminate | vm_com
 (* the facts read from the source, as they are now (the proofs of Proofs2/3/5 depend on them) *)
 Example code_facts :
   compound_idf = Some ["left"; "right"] /\ modified_idf = Some ["prior"] /\
-  reload_restores_item_number = true /\ log_gaussian_dict = true /\ drawer_json_readable = true.
+  reload_restores_item_number = true /\ log_gaussian_dict = true /\ drawer_json_readable = true /\ sets_sorted = true.
 Proof. repeat split. Qed.
 
 (* contexts exist: the `b` attribute of the model stored under "source" *)
@@ -115,3 +116,15 @@ Proof. split; [right; left; split; [discriminate | reflexivity] | vm_compute; re
 (* key rename / added item hypotheses *)
 Example key_hypotheses : visible "lens" = true /\ visible "lens_renamed" = true /\ "lens" <> "lens_renamed".
 Proof. repeat split; discriminate. Qed.
+
+(* sets: two iteration orders of {a, b, mass} are permutations of each other and are described alike;
+   history (before 9943127 the walk followed the iteration order): the two orders themselves differ *)
+Example set_orders : Permutation ["mass"; "a"; "b"] ["b"; "mass"; "a"] /\
+  tokens ps0 (OSet ["mass"; "a"; "b"]) = ["a"; "b"; "mass"] /\ tokens ps0 (OSet ["b"; "mass"; "a"]) = ["a"; "b"; "mass"].
+Proof.
+  repeat split; try (vm_compute; reflexivity).
+  apply (Permutation_trans (l' := ["b"; "mass"; "a"])); [|reflexivity].
+  apply (Permutation_cons_app ["b"] ["a"] "mass"). apply perm_swap.
+Qed.
+Example set_order_legacy_refuted : ["mass"; "a"; "b"] <> ["b"; "mass"; "a"].
+Proof. discriminate. Qed.
